@@ -40,6 +40,7 @@ from gemseo.utils.enumeration import merge_enums
 if TYPE_CHECKING:
     from collections.abc import Iterable
     from collections.abc import Sequence
+    from typing import Any
 
     from numpy import ndarray
 
@@ -97,6 +98,7 @@ class MDOChain(ProcessDiscipline):
         super().__init__(disciplines, name=name)
         self._coupling_structure = None
         self._last_diff_inouts = None
+        self.__overwritten_input_data = {}
         self._initialize_grammars()
 
     def _initialize_grammars(self) -> None:
@@ -112,7 +114,32 @@ class MDOChain(ProcessDiscipline):
 
     def _execute(self) -> None:
         for discipline in self.disciplines:
+            # Keep the values of the inputs that the discipline overwrites:
+            # after its execution,
+            # its local data hold the new values under these names.
+            self.__overwritten_input_data[discipline] = {
+                name: self.io.data[name]
+                for name in discipline.io.output_grammar
+                if name in discipline.io.input_grammar and name in self.io.data
+            }
             self.io.data.update(discipline.execute(self.io.data))
+
+    def __get_executed_input_data(self, discipline: Discipline) -> dict[str, Any]:
+        """Return the input data with which a discipline has been executed.
+
+        The local data of a discipline that overwrites some of its inputs
+        hold the output values under these names;
+        the discipline must be linearized at the values it has read.
+
+        Args:
+            discipline: A discipline of the chain.
+
+        Returns:
+            The input data with which the discipline has been executed.
+        """
+        input_data = discipline.io.get_input_data()
+        input_data.update(self.__overwritten_input_data.get(discipline, {}))
+        return input_data
 
     def reverse_chain_rule(
         self,
@@ -144,7 +171,7 @@ class MDOChain(ProcessDiscipline):
         """
         # TODO : only linearize wrt needed inputs/inputs
         # use coupling_structure graph path for that
-        last_cached = discipline.io.get_input_data()
+        last_cached = self.__get_executed_input_data(discipline)
         # The graph traversal algorithm avoid to compute unnecessary Jacobians
         discipline.linearize(last_cached, execute=False, compute_all_jacobians=False)
 
@@ -233,7 +260,7 @@ class MDOChain(ProcessDiscipline):
         last_discipline = self.disciplines[-1]
         # TODO : only linearize wrt needed inputs/inputs
         # use coupling_structure graph path for that
-        last_cached = last_discipline.io.get_input_data()
+        last_cached = self.__get_executed_input_data(last_discipline)
 
         # The graph traversal algorithm avoid to compute unnecessary Jacobians
         last_discipline.linearize(last_cached, execute=False)
